@@ -38,7 +38,7 @@ class StmtMixin:
         if not stmts:
             yield st, None
             return
-        if isinstance(stmts[0], (ast.If, ast.Try, ast.With)) and self.join_paths:
+        if self.join_paths and not isinstance(stmts[0], (ast.Return, ast.Raise, ast.Pass, ast.Break, ast.Continue)):
             falls = []
             for s1, out in self.stmt(stmts[0], st):
                 if out is not None:
@@ -520,6 +520,14 @@ class StmtMixin:
                             if f == '$val' and spec.allow_val_writes:
                                 continue
                             raise Unsupported('loop #%d of %s writes field %s not declared in havoc' % (ordinal, st.fn, f))
+                    if spec.fresh_only:
+                        fr2 = z3.Int('lf2!r')
+                        for f in spec.havoc:
+                            if f != '$out' and not z3.eq(s2.H(f), head_heap[f]):
+                                self.oblige(s2, '%s/loop-frame:%s' % (tag, f),
+                                            qforall([fr2], z3.Implies(fr2 < st.ghost['$ap0'],
+                                                                      z3.Select(s2.H(f), fr2) == z3.Select(head_heap[f], fr2))),
+                                            'frame')
                     Ln = LoopCtx(self, cx, s2, i + 1, it.n, it, entry)
                     for label, g in _lab(spec.inv(Ln)):
                         self.oblige(s2, '%s/inv-preserved:%s' % (tag, label), g, 'inv-preserved')
